@@ -433,6 +433,9 @@ func runLemma(ld *loaded, l *Lemma, tier string, seed int, knownOpen map[string]
 	if l.Mode == "lockbal" {
 		return runLockBalLemma(ld, l, seed, knownOpen)
 	}
+	if l.Mode == "guarded" {
+		return runGuardedLemma(ld, l, seed, knownOpen)
+	}
 	pkg := ld.pkgs[l.Pkg]
 	fail := func(msg string) *LemmaResult {
 		return &LemmaResult{Lemma: l, Inconclusive: []string{msg}, PathsEnded: map[string]int{}, Reached: map[string]int{}, AssertIDs: map[string]int{}, FuncsHit: map[string]bool{}}
@@ -595,6 +598,76 @@ func runLockBalLemma(ld *loaded, l *Lemma, seed int, knownOpen map[string]bool) 
 		res.Violations = append(res.Violations, v)
 	}
 	res.Samples = append(res.Samples, map[string]interface{}{"functions_with_lock_sites": st.Functions, "lock_sites": st.Sites, "paths": st.Paths, "example_functions": firstN(st.Names, 8)})
+	res.Wall = time.Since(t0)
+	return res
+}
+
+func ucSkip(ld *loaded) func(fn *ssa.Function) bool {
+	return func(fn *ssa.Function) bool {
+		if fn.Pkg == nil {
+			return true
+		}
+		path := fn.Pkg.Pkg.Path()
+		if strings.Contains(path, "mock") || strings.Contains(path, "/examples/") || strings.HasSuffix(path, "/internal/vf") {
+			return true
+		}
+		name := fn.Name()
+		if strings.HasPrefix(name, "zz") || strings.HasPrefix(name, "ZZ") {
+			return true
+		}
+		if fn.Signature.Recv() != nil {
+			rt := fn.Signature.Recv().Type().String()
+			if strings.Contains(rt, ".zz") || strings.Contains(rt, ".ZZ") {
+				return true
+			}
+		}
+		pos := ld.prog.Fset.Position(fn.Pos())
+		return strings.HasSuffix(pos.Filename, "_test.go") || strings.Contains(filepath.Base(pos.Filename), "zz_vf")
+	}
+}
+
+func runGuardedLemma(ld *loaded, l *Lemma, seed int, knownOpen map[string]bool) *LemmaResult {
+	res := &LemmaResult{Lemma: l, PathsEnded: map[string]int{}, Reached: map[string]int{}, AssertIDs: map[string]int{}, FuncsHit: map[string]bool{}}
+	t0 := time.Now()
+	cpuTokens <- struct{}{}
+	defer func() { <-cpuTokens }()
+	solver, err := NewSolver("z3", []string{"-in"}, "", seed, 20000)
+	if err != nil {
+		res.Inconclusive = append(res.Inconclusive, "cannot start z3: "+err.Error())
+		return res
+	}
+	defer solver.Close()
+	st, err := runGuardedBy(ld.prog, solver, ucSkip(ld), filepath.Join(verifDir, "spec", "guards.json"))
+	if err != nil {
+		res.Inconclusive = append(res.Inconclusive, "guards.json: "+err.Error())
+		return res
+	}
+	res.Paths = st.Paths
+	res.PathsEnded[""] = st.Paths
+	res.Queries = solver.Queries
+	res.SolverTime = solver.Time
+	res.Sat, res.Unsat, res.Unknown = solver.Sat, solver.Unsat, solver.Unknown
+	res.Obligations = st.Accesses
+	res.Discharged = st.Accesses
+	res.Inconclusive = append(res.Inconclusive, st.Incon...)
+	res.Reached["roots-analysed"] = st.Roots
+	res.AssertIDs["guarded-by"] = st.Accesses
+	for _, n := range st.RootNames {
+		res.FuncsHit[n] = true
+	}
+	for _, f := range st.Findings {
+		id := fmt.Sprintf("%s of %s in %s without %s", f.Kind, f.Field, shortFn(f.Fn), f.Guard)
+		model := map[string]interface{}{"root": f.Root, "function": f.Fn, "field": f.Field, "access": f.Kind, "guard": f.Guard, "call_chain": f.Chain}
+		v := Violation{Kind: "uc-lock", ID: id, Pos: f.Pos, Model: model, Harness: f.Fn}
+		kfID := "KF-C09:" + shortFn(f.Fn) + ":" + f.Field + ":" + f.Kind
+		if knownOpen[kfID] {
+			v.KnownIDs = []string{kfID}
+		} else {
+			res.Discharged--
+		}
+		res.Violations = append(res.Violations, v)
+	}
+	res.Samples = append(res.Samples, map[string]interface{}{"roots": st.Roots, "guarded_fields": st.Guards, "guarded_accesses_checked": st.Accesses, "paths": st.Paths, "guard_entries_skipped": st.Skipped, "example_roots": firstN(st.RootNames, 8)})
 	res.Wall = time.Since(t0)
 	return res
 }
